@@ -8,6 +8,7 @@ import (
 	"encoding/json"
 	"fmt"
 	"os"
+	"runtime"
 	"sort"
 	"strings"
 	"time"
@@ -445,6 +446,11 @@ func run(c *fw.Ctx) {
 	}
 	deferred = nil
 	if c.Shard == 0 {
+		var ms runtime.MemStats
+		runtime.ReadMemStats(&ms)
+		c.Note("shard0_goroutines_at_end", runtime.NumGoroutine())
+		c.Note("shard0_heap_mb", ms.HeapAlloc>>20)
+		c.Note("shard0_sys_mb", ms.Sys>>20)
 		c.Note("shard0_limit_s", t1.Sub(t0).Seconds())
 		c.Note("shard0_bfs_s", time.Since(t1).Seconds())
 	}
